@@ -325,5 +325,13 @@ def run(ctx):
             types = [sv.VCLS[f] for f in [fmt] + others]
             rng.shuffle(types)
             _judge(ctx, "Dynamic", lambda: sv.V.Dynamic(types), data, tree, f"dynamic:{fmt}")
+            # "empty means all types are supported": every format code, lists and JIS-8 included
+            _judge(ctx, "Dynamic([])", lambda: sv.V.Dynamic([]), data, tree, f"dynamic-all-types:{fmt}")
+            ctx.count("oracle.dynamic_without_type_list")
+            if i % 16 == 4:
+                # elements of a list are read as ANYVALUE, whose definition does not include JIS-8: no J below the top level
+                t2 = _tree_no_j(rng, 2, 3)
+                d2 = e5ref.encode(t2, _random_lenbytes(rng, 0.3))
+                _judge(ctx, "Dynamic([])", lambda: sv.V.Dynamic([]), d2, t2, f"dynamic-all-types:nested:{t2[0]}")
         else:
             _typed_structures(ctx)
